@@ -96,7 +96,11 @@ template<class Vis, bool RB = false> struct Interp {
 			with_cat(v, o.cat, [&](auto&& vv) { next(std::forward<decltype(vv)>(vv).halved(), nm, cs("halved")); }); return; } } break;
 		case K_FLATTED: if constexpr(D > 1) { if(m_flattable(m)) { MV nm = m_flatted(m);
 			with_cat(v, o.cat, [&](auto&& vv) { next(std::forward<decltype(vv)>(vv).flatted(), nm, cs("flatted")); }); return; } } break;
-		case K_SLICED3: { if(empty) break; L a = o.a % s0; L s = 1 + o.c % 3; L q = 1 + o.b % ((s0 - a + s - 1) / s); L b = a + q * s; if(b > s0) { b = s0; if((b - a) % s != 0) break; }
+		case K_SLICED3: { if(empty) break;
+			if constexpr(D == 1 && !RB) { if(o.b % 2 == 1 && s0 >= 2) {  // negative stride (1-D only: the D>1 overload asserts first <= last): sliced(first, last, -s), elements first, first-s, ... > last
+				L const s = 1 + o.c % 2; L first = o.a % s0; if(first < s) first = s0 - 1; if(first >= s) { L const q = 1 + o.c % (first / s); L const last = first - q * s; MV nm = m_sliced_neg(m, first, last, s); count("negative-stride-slices");
+					with_cat(v, o.cat, [&](auto&& vv) { next(std::forward<decltype(vv)>(vv).sliced(first, last, -s), nm, cs("sliced(") + S(first) + "," + S(last) + ",-" + S(s) + ")"); }); return; } } }
+			L a = o.a % s0; L s = 1 + o.c % 3; L q = 1 + o.b % ((s0 - a + s - 1) / s); L b = a + q * s; if(b > s0) { b = s0; if((b - a) % s != 0) break; }
 			MV nm = m_strided(m_sliced(m, a, b), s);
 			with_cat(v, o.cat, [&](auto&& vv) { next(std::forward<decltype(vv)>(vv).sliced(f0 + a, f0 + b, s), nm, cs("sliced(") + S(f0 + a) + "," + S(f0 + b) + "," + S(s) + ")"); }); return; }
 		case K_PAREN: { with_cat(v, o.cat, [&](auto&& vv) { next(std::forward<decltype(vv)>(vv)(), m, cs("()")); }); return; }
